@@ -15,6 +15,7 @@ from .asttypes import (
     ASTS_LEAF_LIST_OR_SET,
     ASTS_LEAF_CMPOP,
     ASTS_LEAF_CMPOP_TWO_WORD,
+    ASTS_LEAF_WITH,
     AST,
     And,
     Assign,
@@ -1626,6 +1627,9 @@ def _put_slice_Tuple_elts(
 
     if need_par and not is_delimited and par_if_needed:
         self._delimit_node()
+
+    if pfield and pfield.name == 'context_expr' and (parent := self.parent.parent) and parent.a.__class__ in ASTS_LEAF_WITH:
+        _fix_With_items(parent)  # if we are the only item of a `with` then need our own grouping parentheses because otherwise the elements will be mistaken for individual withitems on parse
 
 
 def _put_slice_List_elts(
